@@ -252,6 +252,78 @@ def compare_settings(log, label, want, got, keyprefix, replay_fn, rk):
             _decide(log, prove_formula(c.formula(), what), key, rep)
 
 
+def _flat(settings, ev=lambda v: v):
+    """settings dictionary -> {name: plain python value} (numbers as float/int/bool, enums by name)"""
+    import enum
+    import numpy as np
+
+    out = {}
+    for k, v in settings.items():
+        if isinstance(v, tuple) and v and v[0] in ("lin", "sq"):
+            v = v[1]
+        v = ev(v)
+        if isinstance(v, np.generic):
+            v = v.item()
+        if isinstance(v, enum.Enum):
+            v = "enum:" + v.name
+        if isinstance(v, float) and v != v:
+            v = "nan"
+        out[k] = v
+    return out
+
+
+def _validate(log, label, real, mine):
+    """translator validation: the settings the MODEL reads off the upgraded cards at the default point equal those
+    of the REAL code (computed in this process before any module was patched)"""
+    if real is None:
+        return
+    for k in sorted(set(real) | set(mine)):
+        a, b = mine.get(k, "<missing>"), real.get(k, "<missing>")
+        same = (abs(a - b) <= 1e-9 * max(1.0, abs(a), abs(b))) if isinstance(a, (int, float)) and isinstance(b, (int, float)) and not isinstance(a, bool) \
+            and not isinstance(b, bool) else (a == b and type(a) is type(b))
+        if not same:
+            log.inconclusive.append("translator validation failed for %s: %s: model %r vs real %r" % (label, k, a, b))
+            return
+    log.validate(len(real))
+
+
+def real_settings(kind, var):
+    """(real, unpatched code) settings of the upgraded cards at the builders' default point"""
+    from eko.io import runcards as rc
+    from eko.io import v1, v2
+
+    mk = CS.ConcMk({}, "py")
+    try:
+        if kind == "theory":
+            return _flat(read_current_theory(rc.Legacy(old_theory(mk, var), old_operator(mk, {"n": 2})).new_theory))
+        if kind == "operator":
+            return _flat(read_current_operator(rc.Legacy(old_theory(mk, var), old_operator(mk, var)).new_operator))
+        nt, no = _upgrade(v1, v2, var["version"], v_theory(mk, var), v_operator(mk, var), v_theory(mk, var))
+        d = _flat(read_current_theory_v(nt))
+        d.update({"op." + k: v for k, v in _flat(read_current_operator(no)).items()})
+        return d
+    except Exception as e:
+        return {"EXC": type(e).__name__}
+
+
+def model_settings(kind, var, rc, v1, v2):
+    try:
+        with CS.AtDefaultPoint("py") as pt:
+            mk = pt.mk
+            if kind == "theory":
+                return _flat(read_current_theory(rc.Legacy(old_theory(mk, var), old_operator(mk, {"n": 2})).new_theory), pt.ev)
+            if kind == "operator":
+                return _flat(read_current_operator(rc.Legacy(old_theory(mk, var), old_operator(mk, var)).new_operator), pt.ev)
+            nt, no = _upgrade(v1, v2, var["version"], v_theory(mk, var), v_operator(mk, var), v_theory(mk, var))
+            d = _flat(read_current_theory_v(nt), pt.ev)
+            d.update({"op." + k: v for k, v in _flat(read_current_operator(no), pt.ev).items()})
+            return d
+    except Exception as e:
+        if _engine_exc(e):
+            raise
+        return {"EXC": type(e).__name__}
+
+
 def _setup():
     import importlib
 
@@ -271,9 +343,10 @@ def _label(kind, var):
 # ---------------------------------------------------------------------------
 def case_legacy_theory(log, items):
     _start()
+    reals = [real_settings("theory", v) if not CS._INSTALLED else None for v in items]
     dl, ip, rc, mt, v1, v2 = _setup()
     log.encode(rc.Legacy.new_theory.fget, rc.Legacy.heavies, rc.Legacy.fallback, TheoryCard.__post_init__, dl.load_field, dl.load_typing)
-    for var in items:
+    for var, real in zip(items, reals):
         label = _label("legacy-theory", var)
         rk = {"var": var}
 
@@ -301,6 +374,7 @@ def case_legacy_theory(log, items):
 
         _r, pm = explore(run, max_paths=64)
         log.path_stats(pm)
+        _validate(log, label, real, model_settings("theory", var, rc, v1, v2) if real is not None else None)
 
 
 def _nf_formula(mu2, walls, nf):
@@ -317,10 +391,11 @@ def _nf_formula(mu2, walls, nf):
 
 def case_legacy_operator(log, items):
     _start()
+    reals = [real_settings("operator", v) if not CS._INSTALLED else None for v in items]
     dl, ip, rc, mt, v1, v2 = _setup()
     log.encode(rc.Legacy.new_operator.fget, rc.default_atlas, rc.flavored_mugrid, mt.nf_default, mt.Atlas.__init__, mt.Atlas.normalize,
                ip.XGrid.__init__, dl.load_field, dl.load_typing, dl.load_enum)
-    for var in items:
+    for var, real in zip(items, reals):
         label = _label("legacy-operator", var)
         rk = {"var": var}
 
@@ -352,6 +427,7 @@ def case_legacy_operator(log, items):
 
         _r, pm = explore(run, max_paths=256)
         log.path_stats(pm)
+        _validate(log, label, real, model_settings("operator", var, rc, v1, v2) if real is not None else None)
 
 
 # ---- data versions 1 / 2 -------------------------------------------------------------------------------
@@ -458,9 +534,10 @@ def _upgrade(v1, v2, version, raw_th, raw_op, raw_th_again):
 
 def case_versions(log, items):
     _start()
+    reals = [real_settings("versions", v) if not CS._INSTALLED else None for v in items]
     dl, ip, rc, mt, v1, v2 = _setup()
     log.encode(v1.update_theory, v1.update_operator, v2.update_theory, v2.update_operator, TheoryCard.__post_init__, dl.load_field, dl.load_typing)
-    for var in items:
+    for var, real in zip(items, reals):
         label = _label("v%d" % var["version"], var)
         rk = {"var": var}
 
@@ -483,6 +560,7 @@ def case_versions(log, items):
 
         _r, pm = explore(run, max_paths=64)
         log.path_stats(pm)
+        _validate(log, label, real, model_settings("versions", var, rc, v1, v2) if real is not None else None)
 
 
 # ---------------------------------------------------------------------------
